@@ -47,8 +47,13 @@ func c06Teardown(nhooks int, leftovers bool) {
 	var plain, hookTasks []*task.Task
 	triggeredWhilePlainOwned := false
 	triggered := map[string]int{}
+	// the trigger command of the first hook task may be undeliverable: the teardown goes on all the same
+	triggerFails := nhooks > 0 && !leftovers && vrt.Bool("first.hook.trigger.cannot.be.sent")
 	world = task.VerifNewWorld(names, events, func(cmd controlcommands.MesosCommand, rcv controlcommands.MesosCommandTarget) error {
 		if cmd.GetName() == "MesosCommand_TriggerHook" {
+			if triggerFails && len(hookTasks) > 0 && rcv.TaskId.Value == hookTasks[0].GetTaskId() {
+				return errors.New("cannot send the trigger command to " + rcv.TaskId.Value)
+			}
 			triggered[rcv.TaskId.Value]++
 			for _, p := range plain {
 				if world.Owned(p) {
@@ -117,7 +122,9 @@ func c06Teardown(nhooks int, leftovers bool) {
 		vrt.Reach("refused")
 		return
 	}
-	vrt.Assert(err == nil, "allowed-destroy-succeeds-when-every-release-succeeds")
+	if !triggerFails {
+		vrt.Assert(err == nil, "allowed-destroy-succeeds-when-every-release-succeeds")
+	}
 	vrt.Assert(!listed, "destroyed-environment-is-gone-from-the-listing")
 	vrt.Assert(env.CurrentState() == "DONE", "destroyed-environment-is-done")
 	for _, t := range world.Tasks {
@@ -126,6 +133,8 @@ func c06Teardown(nhooks int, leftovers bool) {
 	for _, h := range hookTasks {
 		if hookDead[h.GetTaskId()] {
 			vrt.Assert(triggered[h.GetTaskId()] == 0, "dead-hook-task-is-not-triggered")
+		} else if triggerFails {
+			vrt.Assert(triggered[h.GetTaskId()] <= 1, "no-destroy-hook-task-is-triggered-twice")
 		} else {
 			vrt.Assert(triggered[h.GetTaskId()] == 1, "every-destroy-hook-task-is-triggered-exactly-once")
 		}
